@@ -14,8 +14,9 @@ integer / string / `64` / `0x40` leaves) and 0..12 used helpers (+ unused ones t
    tree fitted to PAT must return the value the source-level destructuring binds to NAME.
    A failure of the second form is classified by the strict optimiser model (`modeld opt`):
    the classic compiler runs the classic optimiser on `(a (q . BODY) (c (q . CONSTANTS) 1))`
-   (signatures compile:classic-opt-signed-path = C01-F3, compile:classic-deep-path-get-u32 =
-   C03-deep-path-get-u32; anything else is a new failure);
+   (signature compile:classic-opt-signed-path = C01-F3; anything else is a new failure — in
+   particular a parameter 32+ levels deep, the former finding C03-deep-path-get-u32 repaired in
+   /repo c2e6c4f: the chains of depth 30..40 below are always generated);
  * oracle for the constants tree (`helper_oracle`): programs with 0..12 used constants / functions
    (+ unused ones), every helper evaluated by the main expression, shallow parameter trees; run
    with a cost limit (`cvh classicenv`, `run` lines).  Also run on a widened sample whenever the
@@ -307,7 +308,8 @@ def run(chk, n_layout, n_oracle):
         pat, g = gen_pattern(rng, odd=False)
         cases.append((pat, g))
     # the boundary classes the proofs and the findings speak about, always present
-    for d in (30, 31, 32, 33, 40):
+    # (depths 31/32, 39/40, 47/48, … put the top bit of a 4-, 5-, 6-… byte path atom: former finding C03-deep-path-get-u32)
+    for d in (30, 31, 32, 33, 39, 40, 47, 48, 56, 64):
         g = PatGen(rng, False)
         cases.append((g.chain(d, "first"), g))
     for n in (15, 16, 17, 31, 33, 40):
@@ -321,7 +323,7 @@ def helper_oracle(chk, rng, n, tag):
     """property-level oracle for the constants tree (implementation alone): programs with 0..12 used
     constants / functions (functions use constants and earlier functions) + unused ones; every
     helper is evaluated by the main expression; parameter trees kept shallow (<= 12 levels) so
-    that the listed optimiser findings (signed / get_u32 paths) cannot interfere."""
+    that the listed optimiser finding (sign-extended paths, C01-F3) cannot interfere."""
     il, info = [], []
     for _ in range(n):
         while True:
@@ -461,8 +463,7 @@ def classify_const(chk, bad):
             r = next(it).split()
             flag = r[1] if len(r) > 1 else "unclassified"
             predicted = r[0]
-        sig = {"FLAG:signed-noncanonical-path": "compile:classic-opt-signed-path",
-               "FLAG:get-u32-path": "compile:classic-deep-path-get-u32"}.get(flag, "compile:C03:classic-const-form:" + flag)
+        sig = {"FLAG:signed-noncanonical-path": "compile:classic-opt-signed-path"}.get(flag, "compile:C03:classic-const-form:" + flag)
         chk.count("oracle:const:mismatch:" + flag)
         if predicted and predicted.startswith("ok:"):
             # the optimiser model (C04) run on the reconstructed input reproduces the compiler's output
